@@ -355,6 +355,18 @@ func runC06(e *core.Env) {
 				e.Violation("model", "list-disagrees-after:"+op.Kind, "after %s: the tag listing is err=%v %v, the map says {%s}", where, lo.Err, lo.List, state.key())
 				return
 			}
+			// head and get by digest report exactly the set of stored manifests
+			for _, md := range mans {
+				_, want := state.Mans[md]
+				r := mustRef(strings.TrimSuffix(ep.refStr("x"), ":x") + "@" + md)
+				_, herr := rc.ManifestHead(ctx, r)
+				_, gerr := rc.ManifestGet(ctx, r)
+				if (herr == nil) != want || (gerr == nil) != want {
+					e.Violation("model", "digest-read-disagrees-after:"+op.Kind, "after %s: head by digest of %s reports err=%v, get err=%v, the set of stored manifests says present=%v", where, short(md), herr, gerr, want)
+					return
+				}
+			}
+			e.Probe("digest-reads-checked")
 			// stored manifests: deleting a tag never removes the manifest other tags share
 			for m := range state.Mans {
 				if _, _, ok := st.Manifest(m); !ok {
